@@ -418,6 +418,7 @@ def run(rep, tier):
         c10.clause_escape_flag(facts, rep, ns)
         c10.clause_escape_carry(facts, rep, ns)
         c10.clause_container_carry(facts, rep, ns)
+        c10.clause_skip_literal(facts, rep)     # a lazily parsed true / false / null, also as the whole text
         c10.clause_escaped_bits(facts, rep, tier)
         # source keys are matched against the target through the lookup map (CreateMap / FindMember): its comparator must be
         # the unsigned lexicographic order on every path, or a key that is present is not found and gets appended (shared with C14)
